@@ -125,9 +125,23 @@ class PoolObjSlots:
         return {"serial": self.serial}
 
 
+@api.expose
+class PoolObjVars:
+    """a pool object of a class for which the application registered NO by-value converter: a serializer without an auto-proxy
+    hook (marshal) sends it as Pyro's default class record, built from vars(obj)"""
+
+    def __init__(self, serial, log):
+        self.serial = serial
+        self._log = log
+
+    def who(self):
+        self._log.append(self.serial)
+        return ["obj", self.serial]
+
+
 # (the subclasses are not class-exposed: that would publish __len__ / __bool__ as remote methods; who() is inherited exposed)
 SHAPES = {"plain": PoolObj, "len0": PoolObjLen, "bool0": PoolObjBool, "state": PoolObjState, "inst": PoolObjK,
-          "frozen": PoolObjFrozen, "noweak": PoolObjSlots, "eq": PoolObjEq}
+          "frozen": PoolObjFrozen, "noweak": PoolObjSlots, "eq": PoolObjEq, "vars": PoolObjVars}
 
 
 @api.expose
